@@ -21,7 +21,9 @@ class SpanWalk(Contract):
     out_name = 'paths'
 
     def other_param(self, eng, st, p):
-        return Ptr(st.alloc(ScalarVec.symbolic(p.name, Ref)))
+        vec = ScalarVec.symbolic(p.name, Ref)
+        st.facts.append(vec.len >= 0)
+        return Ptr(st.alloc(vec))
 
     def pre(self, cx):
         v = self.views['this']
